@@ -51,22 +51,32 @@ def exact_part(ck, tier, rng):
         devs = slevel.gen_devs(rng, cfg)
         cases.append(dict(cfg=cfg, devs=devs, speed=rng.choice([(1, 1), (2, 1), (1, 2)]), initial=rng.choice([0, 2_000_000, 5_000_000_000]),
                           stim=sprops.gen_stim(rng, cfg, devs), delays=None, early=None))
+    # wakeups less than a millisecond of REAL time apart: sub-millisecond callback periods at speed 1, ordinary periods
+    # at speed 1000 and 250 (the pacing arithmetic has no granularity below which a wakeup may be served early)
+    for cfg, devs in SMALL:
+        fine = {d: (p[0], p[1] // 1000, p[2]) for d, p in devs.items()}
+        for init in (0, 5_000_000_000):
+            cases.append(dict(cfg=cfg, devs=fine, speed=(1, 1), initial=init, stim=[], delays=None, early=None, t_end=12_000_003))
+            cases.append(dict(cfg=cfg, devs=devs, speed=(1000, 1), initial=init, stim=[], delays=None, early=None, t_end=12_000_003))
+            cases.append(dict(cfg=cfg, devs=devs, speed=(250, 1), initial=init, stim=[], delays=None, early=None, t_end=30_000_003))
     runs, terms = [], []
     for c in cases:
-        r = slevel.run_internal(c["cfg"], c["devs"], c["speed"], c["initial"], c["stim"], sprops.T_END, delays=c["delays"], early=c["early"])
+        t_end = c.get("t_end", sprops.T_END)
+        r = slevel.run_internal(c["cfg"], c["devs"], c["speed"], c["initial"], c["stim"], t_end, delays=c["delays"], early=c["early"])
         runs.append(r)
-        terms.append(slevel.render_sim_case(c["cfg"], c["devs"], c["speed"], c["initial"], c["stim"], sprops.T_END, r,
+        terms.append(slevel.render_sim_case(c["cfg"], c["devs"], c["speed"], c["initial"], c["stim"], t_end, r,
                                             pre=[c["early"][1]] if c["early"] else []))
     bad = run_shards(PID + "_exact", sprops.HEADER, "sim_case", "check_exact", terms, shard_size=12)
     for c, r in zip(cases, runs):
         ck.count("exact:" + json.dumps([sprops.describe(c), c["delays"], c["early"]], sort_keys=True), len(r["mticks"]) >= 3)
-    ck.coverage.update(exact_pacing_runs=len(cases), exact_pacing_early_interrupts=sum(1 for r in runs if r.get("early_before_scheduler")),
+    ck.coverage.update(exact_pacing_runs=len(cases), exact_pacing_runs_with_sub_millisecond_gaps=sum(1 for c in cases if "t_end" in c), exact_pacing_early_interrupts=sum(1 for r in runs if r.get("early_before_scheduler")),
                        exact_pacing_disagreements=len(bad))
     hit = [i for i in sorted(bad) if 97 in bad[i]]
     if hit:
         i = hit[0]
         d = sprops.describe(cases[i])
-        d.update(kind="exact", delays=cases[i]["delays"], early=cases[i]["early"], codes=bad[i], master_ticks=[list(x) for x in runs[i]["mticks"]][:12])
+        d.update(kind="exact", delays=cases[i]["delays"], early=cases[i]["early"], codes=bad[i], master_ticks=[list(x) for x in runs[i]["mticks"]][:12],
+                 t_end=cases[i].get("t_end", sprops.T_END))
         ck.report("simulation-time-is-not-initial-plus-speed-times-real-time",
                   "a master tick's simulation time differs from initial + speed x elapsed real time although ticks cost no real time", d)
     elif bad and not ck.violations:
@@ -99,8 +109,9 @@ def replay(rp):
         delays = {(k if k == "sched" else int(k)): v for k, v in rp["delays"].items()} if rp.get("delays") else None
         early = tuple(rp["early"]) if rp.get("early") else None
         stim = [tuple(x) for x in rp["stim"]]
-        r = slevel.run_internal(cfg, devs, tuple(rp["speed"]), rp["initial"], stim, sprops.T_END, delays=delays, early=early)
-        term = slevel.render_sim_case(cfg, devs, tuple(rp["speed"]), rp["initial"], stim, sprops.T_END, r, pre=[early[1]] if early else [])
+        t_end = rp.get("t_end", sprops.T_END)
+        r = slevel.run_internal(cfg, devs, tuple(rp["speed"]), rp["initial"], stim, t_end, delays=delays, early=early)
+        term = slevel.render_sim_case(cfg, devs, tuple(rp["speed"]), rp["initial"], stim, t_end, r, pre=[early[1]] if early else [])
         bad = run_shards("replay", sprops.HEADER, "sim_case", "check_exact", [term])
         print("initial:", rp["initial"], "speed:", rp["speed"], "early interrupt:", early)
         print("master ticks (simulation time, real time):", r["mticks"][:12])
